@@ -1052,8 +1052,9 @@ type fnOut struct {
 func (c *codegen) function(k fnKey) fnOut {
 	fd := c.fns[k]
 	f := &fnCtx{key: k, fd: fd, used: map[string]bool{}, errSiteOf: map[token.Pos]int{}}
+	prev := c.cur // restored also while a refusal unwinds through the caller's frames
 	c.cur = f
-	defer func() { c.cur = nil }()
+	defer func() { c.cur = prev }()
 	if fd.Body == nil {
 		c.fail(fd, "function without body")
 	}
